@@ -72,12 +72,18 @@ Record col := {
   c_src_bloom_uncompressed : bool; (* header.Compression is BloomFilterUncompressed *)
   c_src_bloom_num_bytes : N;       (* header.NumBytes *)
   c_dst_filter_size : N;           (* dst.columnFilter.Size(meta.NumValues) *)
+  c_dst_filter_size_dict : N;      (* dst.columnFilter.Size(NumValues of the source dictionary page header) *)
   c_src_column_index : bool;       (* src.chunk.ColumnIndexOffset != 0 *)
   c_src_offset_index : bool;       (* src.chunk.OffsetIndexOffset != 0 *)
   c_src_encoding_stats : list (page_type * N);   (* meta.EncodingStats: page type, encoding *)
   c_dst_page_type : page_type;     (* dst.header.page.Type: PTData (v1) or PTDataV2 *)
   c_dst_encoding : N;              (* dst.encoding.Encoding() *)
   c_dst_dict : bool;               (* dst.dictionary != nil *)
+  c_dst_dict_max : N;              (* dst.dictionaryMaxBytes (0: no limit) *)
+  c_src_dict_page : bool;          (* meta.DictionaryPageOffset != 0 and DataPageOffset - DictionaryPageOffset > 0 *)
+  c_src_dict_header_ok : bool;     (* the thrift header of the source dictionary page decodes, Type is DictionaryPage,
+                                      DictionaryPageHeader is set (dictionaryPageHeaderOf) *)
+  c_src_dict_uncompressed : N;     (* header.UncompressedPageSize of the source dictionary page *)
   (* attributes the cascade does not read; kept to state what a copy does not compare *)
   c_src_page_header_stats : bool;  (* the source pages carry statistics in their headers *)
   c_dst_page_header_stats : bool   (* dst.writePageStats *)
@@ -149,7 +155,20 @@ Definition bloom_filter_is_copyable (c : col) : bool :=
   else if negb (c_src_bloom_header_ok c) then false                                 (* :308 *)
   else if negb (c_src_bloom_split_block c) || negb (c_src_bloom_xxhash c) then false (* :311 *)
   else if negb (c_src_bloom_uncompressed c) then false                              (* :314 *)
+  else if c_dst_dict c then
+    (* repair cc7588b: the filter of a dictionary column is sized from the number of values of its
+       dictionary (flushFilterPages); the source dictionary page header must be readable *)
+    if negb (c_src_dict_page c) || negb (c_src_dict_header_ok c) then false
+    else N.eqb (c_src_bloom_num_bytes c) (c_dst_filter_size_dict c)
   else N.eqb (c_src_bloom_num_bytes c) (c_dst_filter_size c).                       (* :317 *)
+
+(* writer_copy.go columnChunkIsCopyable, last condition (repairs f873992, cc7588b:
+   dictionaryPageHeaderOf): the dictionary page of the source declares an
+   uncompressed size within the destination's DictionaryMaxBytes *)
+Definition dictionary_fits_limit (c : col) : bool :=
+  if negb (c_src_dict_page c) then false
+  else if negb (c_src_dict_header_ok c) then false
+  else N.leb (c_src_dict_uncompressed c) (c_dst_dict_max c).
 
 (** The outcome of the conditions of columnChunkIsCopyable, as read by the
     cascade. *)
@@ -163,7 +182,9 @@ Record col_abs := {
   a_bloom_ok : bool;      (* bloomFilterIsCopyable               :226 *)
   a_column_index : bool;  (* ColumnIndexOffset != 0              :231 *)
   a_offset_index : bool;  (* OffsetIndexOffset != 0              :231 *)
-  a_stats_ok : bool       (* encodingStatsMatch                  :236 *)
+  a_stats_ok : bool;      (* encodingStatsMatch                  :236 *)
+  a_dict_limit : bool;    (* dst.dictionary != nil && dst.dictionaryMaxBytes > 0   :247 *)
+  a_dict_fits : bool      (* dictionaryFitsLimit                 :247 *)
 }.
 
 Definition col_abs_of (c : col) : col_abs := {|
@@ -176,7 +197,9 @@ Definition col_abs_of (c : col) : col_abs := {|
   a_bloom_ok := bloom_filter_is_copyable c;
   a_column_index := c_src_column_index c;
   a_offset_index := c_src_offset_index c;
-  a_stats_ok := encoding_stats_match c
+  a_stats_ok := encoding_stats_match c;
+  a_dict_limit := c_dst_dict c && N.ltb 0 (c_dst_dict_max c);
+  a_dict_fits := dictionary_fits_limit c
 |}.
 
 (* writer_copy.go:135-144 (type assertion) and :202-240 columnChunkIsCopyable *)
@@ -189,6 +212,7 @@ Definition column_copyable_abs (a : col_abs) : bool :=
   else if a_dst_filter a && negb (a_bloom_ok a) then false        (* :226 *)
   else if negb (a_column_index a) || negb (a_offset_index a) then false   (* :231 *)
   else if negb (a_stats_ok a) then false                          (* :236 *)
+  else if a_dict_limit a && negb (a_dict_fits a) then false       (* :247 the source dictionary must fit the limit *)
   else true.
 
 Definition column_copyable (c : col) : bool := column_copyable_abs (col_abs_of c).
